@@ -188,16 +188,19 @@ SubstE(e, T) == [e EXCEPT !.t = SubstT(e.t, T), !.ps = [i \in 1..Len(e.ps) |-> S
 (*                float / complex of int                                   *)
 (*   rescue       value.py:829 accepts a literal that isinstance() accepts *)
 (*                although the structural check failed                     *)
+(*   callany      the signature of a literal (KnownValue) object that has a *)
+(*                __call__ method is (...) -> Any                          *)
 (*   keyleft      positive cache keyed by the protocol only (the mistake   *)
 (*                repaired by commit 73ce54b; seeded mistake)              *)
 (*   cacheassumed positive results are cached although they were computed  *)
 (*                under an outer recursion-guard assumption                *)
 (***************************************************************************)
-RealF == [skipabc |-> FALSE, propany |-> TRUE, noneany |-> TRUE, artretry |-> TRUE, rescue |-> TRUE, keyleft |-> FALSE,
-          cacheassumed |-> TRUE]
-DevFlags == {"propany", "noneany", "artretry", "rescue"}
+RealF == [skipabc |-> FALSE, propany |-> TRUE, noneany |-> TRUE, artretry |-> TRUE, rescue |-> TRUE, callany |-> TRUE,
+          keyleft |-> FALSE, cacheassumed |-> TRUE]
+DevFlags == {"propany", "noneany", "artretry", "rescue", "callany"}
 Repair(f) == [RealF EXCEPT ![f] = FALSE]
-AllRepaired == [RealF EXCEPT !.propany = FALSE, !.noneany = FALSE, !.artretry = FALSE, !.rescue = FALSE, !.cacheassumed = FALSE]
+AllRepaired == [RealF EXCEPT !.propany = FALSE, !.noneany = FALSE, !.artretry = FALSE, !.rescue = FALSE, !.callany = FALSE,
+                            !.cacheassumed = FALSE]
 
 \* checker.py:445 _extract_protocol_members, one base of the MRO
 ImplExtract(c, F) ==
@@ -210,9 +213,10 @@ ImplMemberSeq(p, F) == SelectSeq(PNameOrder, LAMBDA n : n \in ImplProtoMembers(p
 
 \* attribute lookup on a value of the sub-universe (attributes.py through ctx.get_attribute_from_value): the first
 \* class of the MRO -- object / Protocol / Generic included -- that holds the name
+\* (on = the class the attribute was fetched from: a classmethod comes back bound to it)
 ImplLookup(T, n) ==
     LET r == FindIn(FullMro(ClsOf(T)), n)
-    IN IF r.found THEN [r EXCEPT !.e = SubstE(r.e, T)] ELSE r
+    IN [found |-> r.found, e |-> SubstE(r.e, T), owner |-> r.owner, on |-> ClsOf(T)]
 
 ArtSeq(c) == IF c \in {"int", "bool"} THEN <<"float", "complex">> ELSE IF c = "float" THEN <<"complex">> ELSE << >>
 
@@ -302,7 +306,9 @@ PCompat(A, B, names, st, F) ==
              exp == ImplLookup(A, n)
              \* (for __call__ the other value itself is compared: its signature is that of its __call__)
              act == ImplLookup(B, n)
-             r == IF ~act.found THEN Res(FALSE, st.cache)                   \* "has no attribute"
+             r == IF ~act.found THEN Res(FALSE, st.cache)                   \* "has no attribute" / "is not a callable type"
+                  \* the signature of a literal object with a __call__ method is (...) -> Any
+                  ELSE IF n = "__call__" /\ B.k = "known" /\ act.e.k = "method" /\ F.callany THEN Res(TRUE, st.cache)
                   ELSE PCompare(exp, act, B.k = "known", st, F)
          IN IF ~r.r THEN r ELSE PCompat(A, B, Tail(names), St(r.c, st.assumed), F)
 
@@ -316,7 +322,9 @@ PCompare(exp, act, known, st, F) ==
               [] a.k = "prop" -> IF known THEN PCA(e.t, Known(a.v), st, F) ELSE IF F.propany THEN ok ELSE PCA(e.t, a.t, st, F)
               [] a.k \in {"attr", "iattr"} -> IF known THEN PCA(e.t, Known(a.v), st, F) ELSE PCA(e.t, a.t, st, F)
               [] OTHER -> no
-    IN CASE e.k = "slot" -> IF a.k = "slot" THEN ok ELSE no                 \* equal bookkeeping objects
+    IN \* bookkeeping entries are compared as literals: every __slots__ is (), __class_getitem__ is a classmethod bound to
+       \* the class it was fetched from (equal only for the same class)
+       CASE e.k = "slot" -> IF a.k = "slot" /\ (e.n = "__slots__" \/ exp.on = act.on) THEN ok ELSE no
          [] e.k = "prop" -> IF F.propany THEN ok ELSE dataExpected          \* expected is Any(inference)
          [] e.k \in {"attr", "iattr"} -> dataExpected
          [] e.k = "method" ->
@@ -403,15 +411,18 @@ RefPresent(c, p) == \A n \in RefReqNames(p) : LET a == FindIn(FullMro(c), n) IN 
 (* is in the class of a mechanism iff the verdict of the model flips when  *)
 (* exactly that mechanism is repaired.                                     *)
 (***************************************************************************)
-Dev_Of(f, A, B) == AcceptF(A, B, RealF) /\ ~AcceptF(A, B, Repair(f))
+Dev_OfF(f, A, B, F) == AcceptF(A, B, F) /\ ~AcceptF(A, B, [F EXCEPT ![f] = FALSE])
+Dev_Of(f, A, B) == Dev_OfF(f, A, B, RealF)
 Dev_PropertyMemberUntyped(A, B) == Dev_Of("propany", A, B)
 Dev_NoneAttributeAsAny(A, B) == Dev_Of("noneany", A, B)
 Dev_PromotionRetry(A, B) == Dev_Of("artretry", A, B)
 Dev_LiteralIsinstanceRescue(A, B) == Dev_Of("rescue", A, B)
+Dev_LiteralCallableUnknown(A, B) == Dev_Of("callany", A, B)
 DevKey(f) == CASE f = "propany" -> "protocol-property-member-untyped"
                [] f = "noneany" -> "none-valued-attribute-satisfies-protocol-member"
                [] f = "artretry" -> "int-accepted-for-protocol-via-float-promotion"
                [] f = "rescue" -> "runtime-protocol-literal-accepted-by-isinstance"
+               [] f = "callany" -> "literal-callable-object-signature-unknown"
 
 \* documented leniency (DESIGN.md C04): a bare generic stands for G[Any]
 RECURSIVE PHasBare(_)
